@@ -57,7 +57,7 @@ def showPRes : PRes → String
 def handleC12 (inp obs : List String) : Verdict :=
   let parsed := (do let ty ← pTy; let line ← bytes; let ptab ← pPTab; pure (ty, line, ptab)).run inp
   match parsed, pPRes.run obs with
-  | some ((ty, line, ptab), _), some (o, _) =>
+  | some ((ty, line, ptab), _), some (o, robs) =>
     let fc := mkCodec ptab []
     let expect := c12Expect fc ty line
     let cols := splitOn (· == TAB) line
@@ -67,7 +67,17 @@ def handleC12 (inp obs : List String) : Verdict :=
       (if cols.length > bedCols ty + (extraColOk fc ty).length then ["extra-columns"] else []) ++
       (if line.isEmpty then ["empty-string"] else []) ++
       (if line.any (· ≥ 128) then ["non-ascii"] else []) ++
-      (if cols.length < bedCols ty then ["prefix-of-valid-line"] else [])
+      (if cols.length < bedCols ty then ["prefix-of-valid-line"] else []) ++
+      (if line.length > 64 && line.any (· ≥ 128) then ["long-non-ascii-line"] else []) ++
+      (match robs with | "rd" :: _ => ["through-reader"] | _ => [])
+    -- the line as the only line of a Reader: exactly one item, Ok iff the line must be accepted, never a panic
+    let readerBad : Option String := match robs with
+      | "rd" :: a :: b :: _ =>
+        let want := if expect == .accept then "ok" else "err"
+        if a != want || b != want then some s!"Reader::records -> {a}, into_records -> {b}; required: one item, {want}" else none
+      | _ => none
+    if let some d := readerBad then
+      { kind := "specfail", nontrivial, classes, detail := s!"line {hexEncode line} as {repr ty}: {d}" } else
     let specOk : Bool := match o, expect with
       | .panic, _ => false
       | .ok _, .accept => true
